@@ -351,17 +351,19 @@ func reducedVPs(thorough bool) []*VP {
 		}
 		return out
 	}
-	return pick("UintEq(1)", "UintLt(2^256-1)", "UintGte(2^256)", "UintEq(0)", "BytesEq(len 32)", "BytesEq(len 33)", "BytesEq(len 0)")
+	if !thorough {
+		return pick("UintEq(1)", "UintLt(2^256-1)", "UintGte(2^256)", "UintEq(0)", "BytesEq(len 32)", "BytesEq(len 33)", "BytesEq(len 0)")
+	}
+	return pick("UintEq(0)", "UintEq(1)", "UintEq(2^256-1)", "UintEq(2^256)", "UintLt(1)", "UintLt(2^256-1)", "UintGt(0)", "UintGte(2^256)", "UintLte(0)",
+		"BytesEq(len 0)", "BytesEq(len 32)", "BytesEq(len 33)", "BytesEq(len 32 zero)")
 }
 
 // MatchDefSpace: candidates for the Match / filter phase. The real Validate
 // decides which of them are valid.
 func MatchDefSpace(thorough bool) *DefSpace {
 	s := &DefSpace{Pool: cross(ValidRefs(), ValidVPs()), K2: 2, Contracts: [][20]byte{Contract}}
-	if thorough {
-		s.K3 = true
-		s.Pool3 = cross(ValidRefs(), reducedVPs(true))
-	}
+	s.K3 = true
+	s.Pool3 = cross(ValidRefs(), reducedVPs(thorough))
 	return s
 }
 
